@@ -214,6 +214,11 @@ func (g *HistGen) c12Op(nextEnt *int) []Op {
 		if keyFamily(e.KeyAlg) == "rsa" {
 			fp.P8 = "null"
 		}
+		// what the user supplies need not carry the configured subject ("not refreshed merely because
+		// their configuration differs from them"): whoever is issued under it names *its* subject, and
+		// once it is re-issued from its configuration, its subscribers have to follow
+		fp.AltDN = r.Chance(1, 3)
+		fp.V2 = r.Chance(1, 6)
 		out = append(out, Op{K: k, Ent: e.ID, Arg: fp.JSON(), Label: "foreign-artifact"})
 		delete(g.Csr, e.ID)
 	case "touch":
